@@ -123,7 +123,9 @@ def check(run: Run) -> None:
     lits = [c for c in calls_in(pp) if ast.unparse(c.func) == "ast.literal_eval"]
     ok = len(lits) == 1 and strip_sites(fpp.term_of(lits[0].args[0])) == ("param", pp.pos_params[4])
     run.check(ok, "C09.R2", pp, pp.node, "parameters are ast.literal_eval(slice) (by value)", "the [param] subscript is not evaluated with ast.literal_eval")
-    vc = need("visit_Call")
+    from ..lib import view as _view_vc
+
+    vc = _view_vc(m, need("visit_Call"), keep=("process_method_call", "process_function_call", "process_parameterized_method_call", "process_method_callbacks"))
     fvc = ctx.analysis(vc)
     from ..lib import call_events, event_before
 
